@@ -2,13 +2,16 @@ package main
 
 // Valid encodings of packs, steps, transaction records and SM packs: objects made by the
 // repository's constructors, filled by reflection (unexported fields included) and written by
-// the real writers.  `decode(kind, bytes)` is the matching real decoder.
+// the real writers.  `decodeIn(kind, stream, bytes)` is the matching real decoder.
 
 import (
+	"container/list"
+	"fmt"
 	"math"
 	"reflect"
 	"strconv"
 	"strings"
+	"sync"
 	"unsafe"
 
 	gio "github.com/whatap/golib/io"
@@ -50,65 +53,193 @@ var smCtors = map[string]func() rw{
 var smNames = []string{"SMBasePack", "SMDiskPerfPack", "SMLogEventPack", "SMNetPerfPack", "SMPingPack", "SMProcPerfPack",
 	"SMTCPPerfPack", "SMExtension", "SMDownCheckPack"}
 
-// decode runs the real decoder selected by kind on b; it panics when the decoder panics and
-// returns what Available() says afterwards (negative = a short read was accepted).
-func decode(kind string, b []byte) int32 {
-	in := gio.NewDataInputX(b)
+// streamable: kinds whose decoder reads from a DataInputX handed in (the others build their own
+// reader over a byte slice)
+func streamable(kind string) bool {
+	return kind != "hll" && kind != "errrecs" && kind != "downrecs"
+}
+
+// decodeIn runs the real decoder selected by kind on the stream `in` (b = the same bytes, for the
+// decoders that take a slice) and returns the decoded object; it panics when the decoder panics.
+func decodeIn(kind string, in *gio.DataInputX, b []byte) interface{} {
 	switch {
 	case kind == "value":
-		value.ReadValue(in)
+		return value.ReadValue(in)
 	case strings.HasPrefix(kind, "prim:"):
-		readProgram(kind[5:], in)
+		return readProgram(kind[5:], in)
 	case kind == "pack":
-		if pack.ReadPack(in) == nil {
+		p := pack.ReadPack(in)
+		if p == nil {
 			panic("nil pack")
 		}
+		return p
 	case strings.HasPrefix(kind, "steps:"):
 		n, _ := strconv.Atoi(kind[6:])
+		out := make([]step.Step, 0, 4)
 		for i := 0; i < n; i++ {
-			if step.ReadStep(in) == nil {
+			st := step.ReadStep(in)
+			if st == nil {
 				panic("nil step")
 			}
+			out = append(out, st)
 		}
+		return out
+	case strings.HasPrefix(kind, "stepx:"):
+		c := stepxCtors[kind[6:]]
+		if c == nil {
+			panic("harness: unknown step type " + kind)
+		}
+		o := c()
+		o.Read(in)
+		return o
 	case kind == "txrecord":
-		service.NewTxRecord().Read(in)
+		return service.NewTxRecord().Read(in)
+	case kind == "txrec":
+		return pack.ReadTransactionRec(in)
+	case kind == "servicerec":
+		return pack.ReadRec(in)
+	case kind == "httpcrec":
+		return pack.NewHttpcRec().Read(in)
+	case kind == "sqlrec":
+		return pack.NewSqlRec().Read(in)
 	case strings.HasPrefix(kind, "sm:"):
 		c := smCtors[kind[3:]]
 		if c == nil {
 			panic("harness: unknown sm type " + kind)
 		}
-		c().Read(in)
+		o := c()
+		o.Read(in)
+		return o
 	case kind == "decarr":
-		in.ReadDecimalArray()
+		return in.ReadDecimalArray()
 	case kind == "decarrint":
-		in.ReadDecimalArrayInt()
+		return in.ReadDecimalArrayInt()
 	case kind == "hll":
-		hll.BuildHyperLogLog(b)
-		return 0
+		return hll.BuildHyperLogLog(b)
 	case kind == "errrecs":
 		p := pack.NewStatErrorPack()
 		p.Records = b
-		p.GetRecords()
-		return 0
+		return p.GetRecords()
 	case kind == "downrecs":
 		p := pack.NewSMDownCheckPack()
 		p.Records = b
-		p.GetRecords()
-		return 0
+		return p.GetRecords()
 	case kind == "intbyteslimit":
-		in.ReadIntBytesLimit(1 << 20)
+		return in.ReadIntBytesLimit(1 << 20)
 	case strings.HasPrefix(kind, "udp:"):
 		f := strings.Split(kind, ":")
 		t, _ := strconv.Atoi(f[1])
 		ver, _ := strconv.Atoi(f[2])
-		if udp.ReadPack(uint8(t), int32(ver), in) == nil {
+		p := udp.ReadPack(uint8(t), int32(ver), in)
+		if p == nil {
 			panic("nil udp pack")
 		}
-	default:
-		panic("harness: unknown kind " + kind)
+		return p
+	}
+	panic("harness: unknown kind " + kind)
+}
+
+// decode: first step only (the reader); returns what Available() says afterwards (negative = a
+// short read was accepted).
+func decode(kind string, b []byte) int32 {
+	in := gio.NewDataInputX(b)
+	decodeIn(kind, in, b)
+	if !streamable(kind) {
+		return 0
 	}
 	return in.Available()
 }
+
+// decodeFull: the reader AND every lazy accessor of the decoded object (second-step decoders such
+// as ZipPack.GetRecords, StatGeneralPack.GetDataTable): the full decode of a message.
+func decodeFull(kind string, b []byte) (int32, interface{}) {
+	in := gio.NewDataInputX(b)
+	obj := decodeIn(kind, in, b)
+	if kind != "value" && !strings.HasPrefix(kind, "prim:") { // values and primitives have no second step
+		callAccessors(obj)
+	}
+	if !streamable(kind) {
+		return 0, obj
+	}
+	return in.Available(), obj
+}
+
+// callAccessors calls every exported method `Get…()` without arguments whose first result is a
+// slice, map, pointer or interface (record tables, data tables, lists) on the decoded object(s).
+func callAccessors(obj interface{}) {
+	switch x := obj.(type) {
+	case nil:
+		return
+	case []step.Step:
+		for _, s := range x {
+			callAccessors(s)
+		}
+		return
+	case []interface{}:
+		return
+	}
+	v := reflect.ValueOf(obj)
+	if v.Kind() != reflect.Ptr || v.IsNil() {
+		return
+	}
+	t := v.Type()
+	accMu.Lock()
+	idx, ok := accCache[t]
+	if !ok {
+		idx = []int{}
+		for i := 0; i < t.NumMethod(); i++ {
+			m := t.Method(i)
+			if !strings.HasPrefix(m.Name, "Get") || m.Type.NumIn() != 1 || m.Type.NumOut() < 1 {
+				continue
+			}
+			switch m.Type.Out(0).Kind() {
+			case reflect.Slice, reflect.Map, reflect.Ptr, reflect.Interface:
+				idx = append(idx, i)
+			}
+		}
+		accCache[t] = idx
+	}
+	accMu.Unlock()
+	for _, i := range idx {
+		v.Method(i).Call(nil)
+	}
+}
+
+var accMu sync.Mutex
+var accCache = map[reflect.Type][]int{}
+
+// reencode: canonical bytes of a decoded object (for comparing two decodes of the same input)
+func reencode(obj interface{}) []byte {
+	out := gio.NewDataOutputX()
+	switch x := obj.(type) {
+	case []step.Step:
+		return step.ToBytesStep(x)
+	case *service.TxRecord:
+		return x.ToBytes()
+	case *pack.TransactionRec:
+		pack.WriteTransactionRec(out, x, 4)
+		return out.ToByteArray()
+	case *pack.ServiceRec:
+		pack.NewStatServicePack().WriteRec(out, x)
+		return out.ToByteArray()
+	case rw:
+		x.Write(out)
+		return out.ToByteArray()
+	case interface{ Write(o *gio.DataOutputX) }:
+		x.Write(out)
+		return out.ToByteArray()
+	}
+	return []byte(fmt.Sprintf("%v", obj))
+}
+
+var stepxCtors = map[string]func() rw{
+	"MessageStepX": func() rw { return step.NewMessageStepX() },
+	"SqlStep_3":    func() rw { return step.NewSqlStep_3() },
+	"HttpcStepX":   func() rw { return step.NewHttpcStepX() },
+	"SqlStepX":     func() rw { return step.NewSqlStepX() },
+	"MethodStepX":  func() rw { return step.NewMethodStepX() },
+}
+var stepxNames = []string{"MessageStepX", "SqlStep_3", "HttpcStepX", "SqlStepX", "MethodStepX"}
 
 // ---------------------------------------------------------------- reflection filler
 
@@ -212,10 +343,19 @@ func (f *filler) fill(v reflect.Value, name string, depth int) {
 	case reflect.Int32:
 		v.SetInt(genInt(r, 4))
 	case reflect.Int64:
+		if r.Chance(20) { // optional sections are switched by "field != 0"
+			v.SetInt(0)
+			return
+		}
 		v.SetInt(genInt(r, 8))
 	case reflect.Int:
 		v.SetInt(genInt(r, 4))
 	case reflect.Uint8:
+		if ln := strings.ToLower(name); (strings.HasPrefix(ln, "ver") || strings.HasSuffix(ln, "version")) && r.Chance(85) {
+			// every layout version a writer can emit, not only the constructor's default
+			v.SetUint(uint64(r.PickInt([]int{0, 1, 2, 3, 4, 5, 8, 9, 10})))
+			return
+		}
 		v.SetUint(uint64(byte(r.U64())))
 	case reflect.Uint16:
 		v.SetUint(uint64(uint16(r.U64())))
@@ -313,6 +453,9 @@ func genPackOf(r *vh.Rng, t int16, depth int) pack.Pack {
 		return nil
 	}
 	fillObj(r, p, depth)
+	if r.Chance(75) {
+		withRecords(r, p)
+	}
 	if q, ok := p.(*pack.StatGeneralPack); ok {
 		// the pack type and the size field are derived data, not free fields
 		v := reflect.ValueOf(q).Elem()
@@ -320,6 +463,73 @@ func genPackOf(r *vh.Rng, t int16, depth int) pack.Pack {
 		settable(v.FieldByName("dataBytesSize")).SetInt(int64(v.FieldByName("dataBytes").Len()))
 	}
 	return p
+}
+
+// withRecords gives the packs that carry an encoded record table (decoded lazily by an accessor)
+// a real table written by the repository's own setters instead of random bytes.
+func withRecords(r *vh.Rng, p pack.Pack) {
+	n := r.Intn(4)
+	vh.Guard(func() {
+		switch q := p.(type) {
+		case *pack.ZipPack:
+			var items []pack.Pack
+			for i := 0; i < n; i++ {
+				items = append(items, genPackOf(r, int16(r.PickInt([]int{pack.PACK_TEXT, pack.PACK_EVENT, pack.PACK_PARAMETER, pack.PACK_ACTIVESTACK_1})), 1))
+			}
+			q.SetRecords(items)
+			q.Status = 0
+		case *pack.LogSinkZipPack:
+			o := gio.NewDataOutputX()
+			for i := 0; i < n; i++ {
+				pack.WritePack(o, genPackOf(r, pack.PACK_LOGSINK, 1))
+			}
+			q.Status = 0
+			q.SetRecords(o.ToByteArray(), 1<<30)
+			q.RecordCount = n
+		case *pack.StatHttpcPack:
+			l := list.New()
+			for i := 0; i < n; i++ {
+				x := pack.NewHttpcRec()
+				fillObj(r, x, 1)
+				l.PushBack(x)
+			}
+			q.SetRecordsList(l)
+		case *pack.StatSqlPack:
+			l := list.New()
+			for i := 0; i < n; i++ {
+				x := pack.NewSqlRec()
+				fillObj(r, x, 1)
+				l.PushBack(x)
+			}
+			q.SetRecordsList(l)
+		case *pack.StatTransactionPack:
+			q.Version = byte(r.PickInt([]int{2, 3, 4}))
+			l := list.New()
+			for i := 0; i < n; i++ {
+				x := pack.NewTransactionRec()
+				fillObj(r, x, 1)
+				l.PushBack(x)
+			}
+			q.SetRecordsList(l)
+		case *pack.StatTransactionPack1:
+			q.Version = byte(r.PickInt([]int{2, 3, 4}))
+			l := list.New()
+			for i := 0; i < n; i++ {
+				x := pack.NewTransactionRec()
+				fillObj(r, x, 1)
+				l.PushBack(x)
+			}
+			q.SetRecordsList(l)
+		case *pack.StatErrorPack:
+			var items []*pack.ErrorRec
+			for i := 0; i < n; i++ {
+				x := pack.NewErrorRec()
+				fillObj(r, x, 1)
+				items = append(items, x)
+			}
+			q.SetRecordsArray(items)
+		}
+	})
 }
 
 func genStep(r *vh.Rng) step.Step {
@@ -362,7 +572,9 @@ func genSM(r *vh.Rng, name string) rw {
 
 var udpTypes = []uint8{udp.TX_START, udp.TX_DB_CONN, udp.TX_SQL, udp.TX_HTTPC, udp.TX_ERROR, udp.TX_MSG, udp.TX_METHOD,
 	udp.TX_SECURE_MSG, udp.TX_SQL_PARAM, udp.TX_PARAM, udp.ACTIVE_STACK_1, udp.ACTIVE_STACK, udp.ACTIVE_STATS,
-	udp.DBCONN_POOL, udp.CONFIG_INFO, udp.RELAY_PACK, udp.TX_START_END, udp.TX_END}
+	udp.DBCONN_POOL, udp.CONFIG_INFO, udp.TX_START_END, udp.TX_END}
+
+// (udp.RELAY_PACK reads `Len` bytes, and Len comes with the datagram header, not through ReadPack)
 
 // versions around every gate of the UDP layouts
 var udpVers = []int32{0, 10100, 10101, 10102, 10103, 10104, 10105, 10107, 10108, 10109, 10110, 20000, 20001, 20102, 20104,
@@ -376,6 +588,9 @@ func genUdp(r *vh.Rng, t uint8, ver int32) udp.UdpPack {
 	fillObj(r, p, 2)
 	if f := reflect.ValueOf(p).Elem().FieldByName("Ver"); f.IsValid() {
 		settable(f).SetInt(int64(ver))
+	}
+	if q, ok := p.(*udp.UdpRelayPack); ok {
+		q.Len = int32(len(q.Data)) // comes with the datagram header
 	}
 	return p
 }
